@@ -604,10 +604,10 @@ def net_ip(i):
 def gen_world(rng, quick=True):
     """a layout + an event list.  Everything the oracle needs is in the scenario itself."""
     ns = rng.choice([1, 2, 2, 3, 3, 4, 5])
-    mode = rng.choices(["full", "partial", "onehop", "odd"], weights=[5, 2, 1, 1])[0]
+    mode = rng.choices(["full", "mixed", "partial", "onehop", "odd"], weights=[4, 3, 2, 1, 1])[0]
     nets, bbmds, simples, fds = [], [], [], []
     for i in range(1, ns + 1):
-        has_b = rng.random() < (0.9 if mode == "full" else 0.7)
+        has_b = rng.random() < (0.9 if mode in ("full", "mixed") else 0.7)
         n = {"id": i, "bcast": [net_ip(i) + 255, PORT], "router": [net_ip(i) + 1, PORT, 0xFFFFFF00, net_ip(i)],
              "prefix": 24, "nodes": []}
         if has_b:
@@ -615,7 +615,7 @@ def gen_world(rng, quick=True):
             n["nodes"].append({"addr": a, "kind": "bbmd", "bdt": []})
             bbmds.append(a)
         k = rng.randrange(0, 4)
-        if mode == "full" and not has_b:
+        if mode in ("full", "mixed") and not has_b:
             k = 0          # canonical layouts: ordinary nodes only where a BBMD serves them
         for h in range(k):
             a = [net_ip(i) + 10 + h, PORT]
@@ -626,7 +626,7 @@ def gen_world(rng, quick=True):
     nextnet = ns + 1
     for j in range(nf):
         where = rng.random()
-        if where < 0.5 or mode == "full" and where < 0.6:
+        if where < 0.5 or mode in ("full", "mixed") and where < 0.6:
             n = {"id": nextnet, "bcast": [net_ip(nextnet) + 255, PORT],
                  "router": [net_ip(nextnet) + 1, PORT, 0xFFFFFF00, net_ip(nextnet)], "prefix": 24, "nodes": []}
             nets.append(n); nextnet += 1
@@ -646,6 +646,11 @@ def gen_world(rng, quick=True):
                 continue
             if mode == "full":
                 l = [b + [FULL] for b in bbmds]
+                if rng.random() < 0.5:
+                    rng.shuffle(l)
+            elif mode == "mixed":
+                # a full mesh whose entries are two-hop or one-hop, chosen per pair (the own entry too)
+                l = [b + [rng.choice([FULL, 0xFFFFFF00])] for b in bbmds]
                 if rng.random() < 0.5:
                     rng.shuffle(l)
             elif mode == "partial":
@@ -695,13 +700,13 @@ def gen_world(rng, quick=True):
         elif r < 0.44 and bbmds and everyone:
             frm = rng.choice(everyone)
             ev = {"op": "sap", "a": frm, "to": rng.choice(bbmds), "msg": ["rfdt"]}
-        elif r < 0.50 and bbmds and simples and mode != "full":
+        elif r < 0.50 and bbmds and simples and mode not in ("full", "mixed"):
             # a node registers by hand (never renewed): the table entry must run out on time
             s = rng.choice(simples)
             ev = {"op": "sap", "a": s, "to": rng.choice(bbmds), "msg": ["reg", rng.choice([1, 2, 5, 10, 30, 60])]}
             if s not in manual:
                 manual.append(s)
-        elif r < 0.53 and bbmds and mode != "full" and len(detached) < 1:
+        elif r < 0.53 and bbmds and mode not in ("full", "mixed") and len(detached) < 1:
             b = rng.choice(bbmds)
             ev = {"op": "detach", "a": b}
             detached.add(tuple(b))
@@ -819,9 +824,10 @@ def fold_model(scn, replies):
 
 
 def theorem_instances(ctx, scn, real, replies):
-    """bbmd_once applied: wherever the model evaluates the theorem's (decidable) hypotheses to true
-    on the current world — WF, Pop, Mesh, Home of originator and target — the REAL observations must
-    show the theorem's conclusion: once at every other served node, never at the originator"""
+    """bbmd_multiplicity / bbmd_once applied: wherever the model evaluates the theorem's (decidable)
+    hypotheses to true on the current world — WF, Pop, Mesh, Home of originator and target — the REAL
+    observations must show the theorem's conclusion: [x != o] + echoes copies at every served node x
+    (echoes = 0, i.e. exactly once and never at the originator, whenever NoEcho holds)"""
     n_inst = 0
     for i, (ev, a) in enumerate(zip(scn["events"], real)):
         if ev["op"] != "bcast":
@@ -829,19 +835,23 @@ def theorem_instances(ctx, scn, real, replies):
         hyp = replies[2 + 2 * i].get("hyp")
         if not hyp or not hyp.get("ok"):
             continue
-        homes = [tuple(h) for h in hyp["homes"]]
+        homes = {(h[0], h[1]): h[2] for h in hyp["homes"]}
         o = tuple(ev["a"])
         if o not in homes:
             continue
         got = collections.Counter(tuple(u[1]) for u in a["obs"] if u[0] == "up")
-        for x in homes:
+        for x, want in homes.items():
             n_inst += 1
-            want = 0 if x == o else 1
+            if hyp.get("noecho") and want != (0 if x == o else 1):
+                raise core.Infra("driver predicts %d copies under NoEcho" % want)
             if got[x] != want:
                 ctx.fail("theorem-instance",
                          {"stream": "world", "mode": scn["mode"], "layout": scn["layout"], "events": scn["events"][:i + 1]},
-                         "hypotheses of bbmd_once hold (evaluated in Lean) but node %r got the broadcast of %r %d times, "
-                         "theorem says %d" % (x, o, got[x], want), node=list(x), got=got[x], want=want)
+                         "hypotheses of bbmd_multiplicity hold (evaluated in Lean, NoEcho=%r) but node %r got the "
+                         "broadcast of %r %d times, theorem says %d" % (hyp.get("noecho"), x, o, got[x], want),
+                         node=list(x), got=got[x], want=want)
+        sig = "echo" if any(w > 1 for w in homes.values()) or homes.get(o, 0) > 0 else "once"
+        ctx.count("theorem-instance", (scn["mode"], sig), n=0)
     if n_inst:
         ctx.count("theorem-instance", n=n_inst)
 
